@@ -309,6 +309,9 @@ type world struct {
 	flips     map[string]int
 	groups    map[byte]bool
 	knownHits int
+	// set by the in-call watcher (instr build only): a caller buffer was seen modified while a call was in progress
+	transient       string
+	transientRegion string
 	aborted   bool
 	accSeen   map[string]bool
 }
@@ -384,6 +387,22 @@ func (w *world) checkBufs(op string, bufs []*Buf) {
 
 // done is called after every tink call that received caller buffers.
 func (w *world) done(op string) {
+	if w.transient != "" {
+		// seen modified during the call; checkBufs below reports it if it is still modified, otherwise it was undone
+		tr, region := w.transient, w.transientRegion
+		w.transient = ""
+		clean := true
+		for _, b := range w.hot {
+			if r, _ := b.Check(); r != "" {
+				clean = false
+			}
+		}
+		if clean {
+			w.r.Probe("transient-write-seen")
+			w.r.Violation("C19/write-transient-"+region+":"+op, op+": "+tr+"; the buffer was restored before the call returned")
+			w.knownHits++
+		}
+	}
 	w.checkBufs(op, w.hot)
 	w.hot = w.hot[:0]
 }
@@ -1836,6 +1855,8 @@ func runWorld(t *rapid.T, r *core.Run, pl *plan, twin *world) *world {
 	cryptotest.SetGlobalRandom(outerT, pl.rngSeed^0x6d656d6f7279)
 	w.g = simrng.New(pl.rngSeed)
 	defer simrng.Install(w.g)()
+	watchBegin(w)
+	defer watchEnd()
 	w.execute()
 	return w
 }
